@@ -94,11 +94,21 @@ def _min_any(f, op):
     l = op_local(op)
     if l is None:
         return None
-    for x in f.copy_chain(l):
+    found = None
+    chain = f.copy_chain(l)
+    for x in chain:
         for d in f.defs(x):
             if d["kind"] == "call" and is_call_to(d["term"], MIN):
-                return d["term"]
-    return None
+                found = d["term"]
+            elif d["kind"] == "assign" and d["rv"][0] in ("use", "cast") and \
+                    op_local(d["rv"][1] if d["rv"][0] == "use" else d["rv"][2]) in chain and \
+                    len(op_place(d["rv"][1] if d["rv"][0] == "use" else d["rv"][2]) or [0, 0]) == 1:
+                continue
+            else:
+                # the value is also produced some other way (e.g. incremented after the min):
+                # it is not bounded by the min any more
+                return None
+    return found
 
 
 def r2_validate(ctx):
